@@ -14,7 +14,7 @@
     length law (see the Examples at the end). *)
 From Coq Require Import List NArith ZArith Bool String Lia.
 From Verif Require Import Lib.Bytes Lib.Codec Cred.Sign Cred.Jwt Cred.PassCode
-  Cred.SignProofs Cred.JwtProofs Cred.PassCodeProofs Cred.UsageProofs Cred.CredGen Gen.CredConsts.
+  Cred.SignProofs Cred.JwtProofs Cred.PassCodeProofs Cred.UsageProofs Cred.Own Cred.OwnProofs Cred.CredGen Gen.CredConsts.
 Import ListNotations.
 Local Open Scope Z_scope.
 
@@ -640,6 +640,42 @@ Theorem C16_rs256_mutant_rejected :
 Proof. exact rs256_mutant_rejected. Qed.
 Print Assumptions C16_rs256_mutant_rejected.
 
+(** Who owns the bytes.  Histories of [Sign] / [Check] interleaved with the
+    caller's writes to its own arrays (a recycled scratch buffer, a record
+    signed field by field): with [Sign]'s result in memory of its own (what the
+    source does: [gen_sign_result_fresh]), every token issued stays the token
+    that was issued and verifies to the payload signed for it, and no call
+    writes into the caller's arrays. *)
+Theorem C16_sign_result_fresh : sign_result_fresh gen_result_origins = true.
+Proof. exact gen_sign_result_fresh. Qed.
+Print Assumptions C16_sign_result_fresh.
+
+Theorem C16_tokens_stay_what_was_issued : forall K (mac : K -> bytes -> bytes) k, mac_len_law mac ->
+  forall ops, ops_ok mac k true init_ostate ops = true ->
+  let s := fst (own_run mac k true init_ostate ops) in
+  Forall (fun tp => read (o_heap s) (fst tp) = sign mac k (snd tp) /\
+                    check mac k (read (o_heap s) (fst tp)) = Some (snd tp)) (o_toks s).
+Proof. exact @tokens_stay_what_was_issued. Qed.
+Print Assumptions C16_tokens_stay_what_was_issued.
+
+Theorem C16_check_returns_signed_payload : forall K (mac : K -> bytes -> bytes) k, mac_len_law mac ->
+  forall s t ts p,
+  OwnProofs.inv mac k s -> nth_error (o_toks s) t = Some (ts, p) ->
+  snd (own_step mac k true s (OCheck t)) = Some (Some p) /\ read (o_heap s) ts = sign mac k p.
+Proof. exact @check_returns_signed_payload. Qed.
+Print Assumptions C16_check_returns_signed_payload.
+
+Theorem C16_own_invariant_kept : forall K (mac : K -> bytes -> bytes) k, mac_len_law mac ->
+  forall s o, OwnProofs.inv mac k s -> op_ok s o = true -> OwnProofs.inv mac k (fst (own_step mac k true s o)).
+Proof. exact @step_inv. Qed.
+Print Assumptions C16_own_invariant_kept.
+
+Theorem C16_calls_leave_callers_memory : forall K (mac : K -> bytes -> bytes) k s o a,
+  (forall x off v, o <> OWrite x off v) -> (a < List.length (o_heap s))%nat ->
+  hget (o_heap (fst (own_step mac k true s o))) a = hget (o_heap s) a.
+Proof. exact @calls_leave_arrays. Qed.
+Print Assumptions C16_calls_leave_callers_memory.
+
 (** One verifier, many tokens, a card that changes (keys added, removed, expired,
     replaced under the same id): every verification is a function of the token,
     the card in force at that moment and the clock. *)
@@ -889,3 +925,18 @@ Example C16_verifier_with_id_cache_refuted :
   map is_ok (verifier_run ph pc pk rv card1 h) = [true; false] /\
   map is_ok (cached_run ph pc pk rv [] card1 h) = [true; true].
 Proof. vm_compute. split; reflexivity. Qed.
+
+(** [Sign] as Go's [append] to its argument is refuted by a history: the caller
+    signs a payload built in a scratch array with room behind it, writes the
+    next payload over it and signs again; the token issued first now verifies
+    to the second payload, and the MAC was written into the caller's array.
+    With the result in memory of its own both tokens are what was issued. *)
+Example C16_in_place_append_refuted :
+  let a := [1; 2; 3]%N ++ repeat 238%N 40 in
+  let h := [OAlloc a; OSign (mkS 0 0 3); OWrite 0 0 [4; 5; 6]%N; OSign (mkS 0 0 3); OCheck 0; OCheck 1] in
+  ops_ok toy_mac 7%N false init_ostate h = true /\ ops_ok toy_mac 7%N true init_ostate h = true /\
+  snd (own_run toy_mac 7%N false init_ostate h) = [None; None; None; None; Some (Some [4; 5; 6]%N); Some (Some [4; 5; 6]%N)] /\
+  snd (own_run toy_mac 7%N true init_ostate h) = [None; None; None; None; Some (Some [1; 2; 3]%N); Some (Some [4; 5; 6]%N)] /\
+  firstn 5 (skipn 3 (hget (o_heap (fst (own_run toy_mac 7%N false init_ostate [OAlloc a; OSign (mkS 0 0 3)]))) 0)) = repeat 172%N 5 /\
+  hget (o_heap (fst (own_run toy_mac 7%N true init_ostate [OAlloc a; OSign (mkS 0 0 3)]))) 0 = a.
+Proof. vm_compute. repeat split. Qed.
